@@ -153,12 +153,12 @@ theorem c08_mergeF_leaf_gen (n : Nat) (a : Node) (ha : plainT a = true) (fo : Fl
   cases a with
   | leaf fa ka =>
     simp only [mergeF, leafRule, Node.flags] at hp ⊢
-    simp [hp, Node.setFlags]
+    simp [hp, Node.setFlags, propagate]
   | comp fa ka ca =>
     obtain ⟨_, hk, _⟩ := plainT_comp ha
     simp only [Node.flags] at hp
     rcases hk with hk | ⟨hk, _⟩ <;> subst hk <;>
-      simp [mergeF, listMerge, compMerge, leafRule, Node.flags, hp, Node.setFlags]
+      simp [mergeF, listMerge, compMerge, leafRule, Node.flags, hp, Node.setFlags, propagate]
 
 theorem c08_propagate_dict_native (f : Flags) (cs : List (Key × Node)) :
     native (propagate (.comp f .dict cs)) = .dict (nativeList cs) := c08_level_native f cs
@@ -231,7 +231,7 @@ theorem c08_deep_step (n : Nat)
           have hstep : mergeStep (mergeF (n' + 1)) sf .dict acc (k, .comp fo .dict []) =
               .ok (aset k (adopt sf .dict (.comp (replaceOtherFlags fo cf) .dict [])) acc) := by
             simp [mergeStep, getChild, CompKind.isDictFam, hl, hm, Node.isComp, reqNewBelow, reqNewList,
-              Node.flags, hdel, setChild]
+              Node.flags, hdel, setChild, propagate, childKw, applyKwList]
           rw [hstep, c08_adopt_empty sf kw ekw]
           have hx : plainT (.comp (updFlags kw (replaceOtherFlags fo cf)) .dict []) = true := by
             simp [plainT, plainTList, c08_updFlags_nn hkw hfo hcf]
@@ -245,12 +245,11 @@ theorem c08_deep_step (n : Nat)
           have ho2 : c08_nnDoc o2 = true := by
             have : c08_nnDoc o2 = true ∧ c08_nnDocList rest2 = true := by simpa [c08_nnDocList] using hocs
             exact this.1
-          have hb : reqNewBelow (.comp (replaceOtherFlags fo cf) .dict ((k2, o2) :: rest2)) = some [k2] := by
-            have e2 := c08_nnDoc_eNew ho2
-            simp only [reqNewBelow, reqNewList, List.nil_append]
-            cases o2 with
-            | leaf f lk => simp only [Node.flags] at e2; simp [reqNew, e2]
-            | comp f kk cs => simp only [Node.flags] at e2; simp [reqNew, e2]
+          have hb : reqNewBelow (propagate (.comp (replaceOtherFlags fo cf) .dict ((k2, o2) :: rest2))) =
+              some [k2] := by
+            have hnn := (c08_nnFlags_iff fo).1 hfo
+            exact c08_reqNewBelow_propagate_blocked _
+              (by simp [replaceOtherFlags, mergeSafe, hnn.2.2.1, hnn.2.2.2.2.2.2.2]) _ _ _
           rw [c08_step_scalar_blocks _ sf acc k _ _ _ [k2] hl rfl hm hb]
           refine ⟨[k, k2], rfl, fun _ => ⟨?_, [k2], o2, rfl, .child (by simp) (.root _)⟩⟩
           simp [getPlainAt, hlN, native]
